@@ -172,4 +172,50 @@ def bolOk (a b : Bytes) : Bool :=
 def safeSplit (a b : Bytes) : Bool :=
   noNul a && noNul b && (b.isEmpty || (!a.isEmpty && noCross b a.length .initial true a && bolOk a b))
 
+/-! ## Any number of cuts (C13R3)
+
+  `safeCuts frags`: every cut is safe with respect to EVERYTHING that follows it (a match may run across several
+  short chunks: `1|2|3`): scanning chunk `a` in the start condition the previous chunks leave, with beginning-of-line
+  set (fresh buffer), no rule matches across its end into the rest of the text, and the beginning-of-line flag does
+  not change the first token of the rest. Chunks non-empty and NUL-free. -/
+
+
+def bolOkFrom (st : St) (a R : Bytes) : Bool :=
+  endsWithNl a || pick (rulesOf (lex st true a).2) true R == pick (rulesOf (lex st true a).2) false R
+
+def safeCutsFrom : St → List Bytes → Bool
+  | _, [] => true
+  | _, [c] => noNul c
+  | st, a :: b :: cs =>
+    noNul a && !a.isEmpty && noCross (b :: cs).flatten a.length st true a && bolOkFrom st a (b :: cs).flatten
+      && safeCutsFrom (lex st true a).2 (b :: cs)
+
+def safeCuts (frags : List Bytes) : Bool := safeCutsFrom .initial frags
+
+
+/-- A byte of literal content that is not a delimiter, not an escape introducer, not NUL ('\n' is plain). -/
+def plainByte (c : UInt8) : Bool := c != 34 && c != 92 && c != 0
+
+/-! ## The buffer size of the RECORDED finding (C13R3)
+
+  `chunkMax` follows the code (`Gen.LEX_BUFFER - 1`, regenerated from tokenizer.lex on every run), so that the model
+  keeps describing what the scanner does. The finding `C13.unaligned_chunk_splits_token` however is recorded for
+  "a line longer than 1023 bytes": its region is fixed here and does NOT move when the code's buffer shrinks — a
+  text whose lines fit 1023 bytes and that is cut by a smaller buffer is a violation, not the known finding. -/
+def recordedMax : Nat := 1023
+
+/-- `fragSplit` / `fragReader` of Model/Lex.lean with the clamp as a parameter. -/
+def fragSplitAt (mx : Nat) : Nat → List Nat → Nat → Bytes → List Bytes
+  | 0, _, _, _ => []
+  | _ + 1, _, _, [] => []
+  | fuel + 1, sizes, last, c :: t =>
+    let want := match sizes with
+      | [] => last
+      | n :: _ => n
+    let w := Nat.max 1 (Nat.min want mx)
+    ((c :: t).take w) :: fragSplitAt mx fuel sizes.tail want ((c :: t).drop w)
+
+def fragReaderAt (mx : Nat) (sizes : List Nat) (text : Bytes) : List Bytes :=
+  fragSplitAt mx text.length sizes mx text
+
 end BlocV.Lex
